@@ -5,6 +5,7 @@ package sftp
 // C20 — no server reply can crash the client.
 
 import (
+	"strings"
 	"encoding/binary"
 	"fmt"
 	"math/rand/v2"
@@ -66,8 +67,10 @@ func c20Gen(class string, seed uint64, tier string) *vfScenario {
 		f.A, f.B = 3, int64(rng.IntN(60))
 	case x < 93:
 		f.A = 4
-	case x < 95:
+	case x < 94:
 		f.A, f.B = 6, int64([]int{0, 0, 1, 4, 99}[rng.IntN(5)])
+	case x < 95:
+		f.A, f.B = 9, int64(rng.IntN(25))
 	case x < 96:
 		f.A, f.B = 7, int64([]int{1, 1, 2, 7, 300}[rng.IntN(5)])
 	case x < 98:
@@ -154,6 +157,9 @@ func c20Enumerate(tier string, base uint64, emit func(*vfScenario)) {
 				add(vfFault{A: 5, B: 7})
 				add(vfFault{A: 6, B: 0})
 				add(vfFault{A: 6, B: 1})
+				for k := 0; k < 25; k += 1 + v*3 {
+					add(vfFault{A: 9, B: int64(k)})
+				}
 				if body[0] == wtData {
 					add(vfFault{A: 7, B: 1})
 					add(vfFault{A: 7, B: 40})
@@ -229,6 +235,15 @@ func c20Mutate(body []byte, f vfFault, seed uint64) []byte {
 		// a well-formed STATUS with code f.B (0 = SSH_FX_OK) in place of whatever the request expects
 		if len(b) >= 5 {
 			b = ssStatus(binary.BigEndian.Uint32(b[1:]), uint32(f.B), "substituted").encode()[4:]
+		}
+	case 9:
+		// a well-formed failure STATUS whose message is long and not ASCII (f.B selects the text): a localised error
+		// text, a long path in another script, bytes that are not UTF-8 at all
+		if len(b) >= 5 {
+			unit := []string{"é", "日本語のエラー", "\xff\xfe", "a\u0301", "x"}[int(f.B)%5]
+			n := []int{300, 700, 1100, 2500, 40000}[int(f.B/5)%5]
+			msg := strings.Repeat(unit, n/len(unit)+1)
+			b = ssStatus(binary.BigEndian.Uint32(b[1:]), 4, msg).encode()[4:]
 		}
 	}
 	return b
